@@ -197,6 +197,9 @@ structure St where
   d : Disk
   es : List LEffect := []          -- every effect so far, in order
   err : Option String := none      -- a panic of the running process
+  /-- GHOST (never read by the model): UndoBlockTxs has read an undo/<height> file whose first 32 bytes name ANOTHER
+      block than the one being undone (the code skips these bytes instead of comparing them — known finding F8) -/
+  foreign : Bool := false
 
 def St.emit (s : St) (e : Effect) (p : Pt) : St :=
   { s with d := apply s.d e, es := s.es ++ [(e, p)] }
@@ -324,6 +327,7 @@ def undoLastBlock (s : St) : St :=
     match getUndo s.d.undo s.n.lastHeight with
     | none => s.fail "UndoBlockTxs: undo file missing"
     | some uf =>
+      let s := { s with foreign := s.foreign || uf.blk != s.n.tip }   -- ghost observation only
       let s := { s with n := { s.n with utxo := undoU s.n.utxo b uf.coins, lastHeight := s.n.lastHeight - 1, dirty := true } }
       let s := s.emit .nop .undoAfterUtxo
       { s with n := { s.n with tip := b.parent, tipHeight := b.height - 1 } }
@@ -520,7 +524,7 @@ def step (s : St) : Op → St
     if s.err.isSome then s else
     match recover s.d s.n.bigs with
     | .error e => s.fail e
-    | .ok s' => { s' with es := s.es ++ s'.es, n := { s'.n with skip := s.n.skip, pause := s.n.pause } }
+    | .ok s' => { s' with es := s.es ++ s'.es, foreign := s.foreign || s'.foreign, n := { s'.n with skip := s.n.skip, pause := s.n.pause } }
   | .skip k => { s with n := { s.n with skip := k } }
   | .pause b => { s with n := { s.n with pause := b } }
   | .hurry => if s.err.isSome then s else hurrySave s
